@@ -180,9 +180,13 @@ class Message:
                             break
                     break
         try:
-            return return_type(hdr)
+            answer = return_type(hdr)
         except NameError:
-            return Message(hdr)
+            answer = Message(hdr)
+        # command classes set their default flags when instantiated; an answer
+        # must carry the proxyable bit of the request it answers
+        answer.header.is_proxyable = self.header.is_proxyable
+        return answer
 
     @classmethod
     def from_bytes(cls, msg_data: bytes, plain_msg: bool = False) -> _AnyMessageType:
@@ -239,7 +243,11 @@ class Message:
         while not unpacker.is_done():
             avps.append(Avp.from_unpacker(unpacker))
 
+        command_flags = header.command_flags
         msg = msg_type(header, avps)
+        # command classes set their default flags when instantiated; a decoded
+        # message keeps the flags it was received with
+        msg.header.command_flags = command_flags
 
         return msg
 
